@@ -83,6 +83,7 @@ fn gen_c06(r: &mut Rng, _t: Tier, _job: u64) -> Plan {
             cert: false,
             v13: r.coin(),
             seed: r.next(),
+            chain: 0,
         });
         p.writes = WriteSched::all();
         if r.coin() {
@@ -622,8 +623,15 @@ fn gen_c10(r: &mut Rng, _t: Tier, _job: u64) -> Plan {
                         seq: 0,
                         kind: CmdKind::LongData {
                             stmt: d,
-                            param: 0,
-                            data: Blob::lit(b"late"),
+                            param: r.below(3) as u16,
+                            data: match r.below(3) {
+                                0 => Blob::lit(b""),
+                                1 => Blob::lit(b"late"),
+                                _ => {
+                                    let n = size_tiny(r);
+                                    blob_bytes(r, n)
+                                }
+                            },
                         },
                         act: Act::None,
                     });
